@@ -781,3 +781,31 @@ Theorem c07_walk_step_is_walk_frame :
     end.
 Proof. exact xstep_is_walk_frame. Qed.
 Print Assumptions c07_walk_step_is_walk_frame.
+
+(* ... and whole walks through standard ebp frames (the module docs' worked example as every function's frame-data
+   program): any depth, eip = *(ebp + 4), esp = ebp + 8, ebp = *ebp at every step — the classic frame-pointer chain,
+   here produced by STACK WIN evaluation.  The layout must let the predefined .raSearch be computed (esp + frame_size
+   within 32 bits) although the program never uses it: otherwise evaluation fails before the first token. *)
+Theorem c07_ebp_recovers_chain :
+  forall mem in_stack lookup (acts : list act_bp) below eip esp ebp,
+    ebp_layout mem in_stack lookup (is_nil below) (spec_gcps below) eip esp ebp acts ->
+    win_walk (length acts) mem in_stack lookup below (mkX eip esp ebp) = ebp_chain ebp acts.
+Proof. exact ebp_recovers_chain. Qed.
+Print Assumptions c07_ebp_recovers_chain.
+
+Example c07_nonvacuous_ebp_layout :
+  let mem := mem_read 4 2147483648
+     [1;1;1;1; 2;2;2;2;   24;0;0;128; 80;32;0;64;   3;3;3;3; 4;4;4;4;   0;1;0;128; 16;48;0;64;  0;0;0;0] in
+  let f := mkWin 4096 256 0 0 0 0 4 0 (ProgramString prog_ebp_frame_b) in
+  let g := mkWin 8192 256 0 0 0 0 4 0 (ProgramString prog_ebp_frame_b) in
+  let lookup := fun ip => if (1073745920 <=? ip) && (ip <? 1073746176) then Some (f, None)
+                          else if (1073750016 <=? ip) && (ip <? 1073750272) then Some (g, Some 0) else None in
+  let acts := [(f, None, 1073750096, 2147483672); (g, Some 0, 1073754128, 2147483904)] in
+  ebp_layout mem (fun sp => (2147483648 <=? sp) && (sp <? 2147483700)) lookup true 0 1073745936 2147483648 2147483656 acts /\
+  win_walk 2 mem (fun sp => (2147483648 <=? sp) && (sp <? 2147483700)) lookup [] (mkX 1073745936 2147483648 2147483656) =
+    [mkX 1073750096 2147483664 2147483672; mkX 1073754128 2147483680 2147483904].
+Proof.
+  split; [|vm_compute; reflexivity].
+  cbn [ebp_layout]. repeat split; try reflexivity; try (intro Hc; discriminate Hc); try (vm_compute; intro Hc; discriminate Hc);
+    try (vm_compute; reflexivity); try (exists 4; repeat split; try reflexivity; vm_compute; intro Hc; discriminate Hc).
+Qed.
